@@ -90,10 +90,19 @@ pub fn run(ctx: &Ctx) -> ! {
             let missing: Vec<&String> = against.difference(&o.published).collect();
             let extra: Vec<&String> = o.published.difference(against).collect();
             rep.violation(
-                if h.contains(&Ev::Restart) { "C20/restart-changes-published-set" } else { "C20/unacknowledged-publication-not-repeated" },
+                if h.contains(&Ev::Restart) {
+                    "C20/restart-changes-published-set"
+                } else if h.contains(&Ev::PublishFails) {
+                    "C20/unacknowledged-publication-not-repeated"
+                } else {
+                    "C20/transient-aggregator-fault-changes-published-set"
+                },
                 format!(
                     "with {:?} inserted into the nominal schedule (which has enough spare cycles after every chain event to absorb them) the acknowledged publications differ from the uninterrupted run: missing {missing:?}, additional {extra:?}",
-                    h.iter().enumerate().filter(|(_, e)| matches!(e, Ev::Restart | Ev::PublishFails)).collect::<Vec<_>>()
+                    h.iter()
+                        .enumerate()
+                        .filter(|(_, e)| !matches!(e, Ev::Tick | Ev::Epoch | Ev::Immutable | Ev::Blocks | Ev::Others(_)))
+                        .collect::<Vec<_>>()
                 ),
                 json!({"history": h, "differential_against": base, "missing": missing, "additional": extra}),
             );
@@ -310,6 +319,60 @@ pub fn run(ctx: &Ctx) -> ! {
         }
         diff_extra.push(json!({"nominal_epochs": epochs, "nominal_len": slack_nom.len(), "spare_cycles_per_group": 2 * n_faults, "faults_per_run": n_faults,
             "fault_combinations": combos, "runs": jobs.len(), "publications_in_uninterrupted_run": base.published.len()}));
+    }
+    // (c') transient aggregator faults that last one (thorough: also two) state-machine cycle(s): the
+    // block [fault on, Tick.., fault off] brings its own cycles, so wherever it is inserted the
+    // uninterrupted schedule still has every cycle it had and the acknowledged publications must be
+    // the same: a registration refused or lost once must be repeated (with keys the aggregator then
+    // knows), a beacon met while the aggregator was away must be signed afterwards.
+    {
+        let epochs = ctx.tier.pick(4, 5);
+        let slack_nom = nominal(epochs, 2);
+        let base = replay(&scratch, &fixture, &slack_nom, Tail::Never);
+        let mut blocks: Vec<Vec<Ev>> = vec![
+            vec![Ev::RoundClosed, Ev::Tick, Ev::RoundOpen],
+            vec![Ev::AggDown, Ev::Tick, Ev::AggUp],
+            vec![Ev::StaleOn, Ev::Tick, Ev::StaleOff],
+            vec![Ev::RegisterAckLost],
+        ];
+        if !quick {
+            blocks.push(vec![Ev::RoundClosed, Ev::Tick, Ev::Tick, Ev::RoundOpen]);
+            blocks.push(vec![Ev::AggDown, Ev::Tick, Ev::Tick, Ev::AggUp]);
+            blocks.push(vec![Ev::RoundClosed, Ev::Tick, Ev::Restart, Ev::RoundOpen]);
+            blocks.push(vec![Ev::AggDown, Ev::Tick, Ev::Restart, Ev::AggUp]);
+            blocks.push(vec![Ev::RegisterAckLost, Ev::Tick, Ev::Restart]);
+        }
+        let mut jobs: Vec<Vec<Ev>> = vec![];
+        for b in &blocks {
+            for p in 0..=slack_nom.len() {
+                let mut h = slack_nom[..p].to_vec();
+                h.extend(b.iter().copied());
+                h.extend(slack_nom[p..].iter().copied());
+                jobs.push(h);
+            }
+        }
+        let res = mc_core::par_map(&jobs, ctx.threads(), |_, h| {
+            let mut part = Report::new("model_checking", "");
+            let o = differential(h, &base.published, &slack_nom, &mut part);
+            add_stats(&o);
+            (o, part)
+        });
+        eprintln!("[C20] differential (transient faults, {epochs} epochs): {} runs, {:.1}s so far", jobs.len(), ctx.elapsed_s());
+        for (o, part) in res {
+            n_diff += 1;
+            rep.eval();
+            rep.outcome(&format!("differential-transient:{}", if o.published == base.published { "same-published-set" } else { "DIFFERENT" }));
+            rep.nontrivial(&o.result.canon);
+            diff_states.insert(o.result.canon.clone());
+            for v in o.result.violations {
+                rep.push_violation(v);
+            }
+            for v in part.violations {
+                rep.push_violation(v);
+            }
+        }
+        diff_extra.push(json!({"nominal_epochs": epochs, "nominal_len": slack_nom.len(), "spare_cycles_per_group": 2, "transient_fault_blocks": blocks,
+            "runs": jobs.len(), "publications_in_uninterrupted_run": base.published.len()}));
     }
     rep.states = Some(rep.states.unwrap_or(0) + diff_states.len() as u64);
     rep.transitions = Some(rep.transitions.unwrap_or(0) + n_diff);
